@@ -65,7 +65,11 @@ RULE = ("symbolic run: structured replies (each TLV field of M2 present/absent/d
         "truncations of session public key, ciphertext, identifier (stale and re-signed) and signature, plus the "
         "structural variants, x 3 transports; non-trivial = the reply passes at least the envelope checks and "
         "reaches SRPAuthHandler.verify1 (symbolic) / is a forged reply rejected by the reference verifier (real); "
-        "distinct = (mode, transport, variant descriptor)")
+        "both runs also execute pairs of sessions in one process (later credentials share identifier and/or key "
+        "with the earlier ones; later reply honest / signed by the earlier key / earlier identity / replayed bytes); "
+        "the fake accessories are full peers (pair-setup M1-M6 incl. transient, /pair-pin-start, any other "
+        "endpoint or frame is answered) so that any fallback after a rejected verify is reachable; "
+        "distinct = (mode, transport, variant descriptor, session history)")
 ASSUMPTIONS = [
     "HAP credentials are present (service.credentials set): without credentials no pair-verify runs and no keys exist",
     "replies carry fewer than ~400 TLV items (CPython recursion limit inside read_tlv is not modelled)",
@@ -143,6 +147,10 @@ def mutate(data, m):
         return data + binascii.unhexlify(m["append"])
     if "set" in m:
         return binascii.unhexlify(m["set"])
+    if "prepend" in m:
+        return binascii.unhexlify(m["prepend"]) + data
+    if "case" in m:  # an identifier that differs only after normalisation
+        return {"lower": data.lower(), "upper": data.upper(), "swap": data.swapcase()}[m["case"]]
     raise ValueError("unknown mutation %r" % (m,))
 
 
@@ -278,7 +286,24 @@ class World:
     def to_json(self):
         return {k: hx(getattr(self, k)) for k in (
             "client_ltsk", "client_id", "a_ltsk", "a_id", "b_ltsk", "b_id", "acc_x", "acc_x2",
-            "other_client_x", "client_ed_seed", "client_x")}
+            "other_client_x", "client_ed_seed", "client_x", "prev_ltsk", "prev_id", "prev_pd")
+                if getattr(self, k, None) is not None}
+
+    def successor(self, rng, relation):
+        """The world of a LATER session in the same process: `relation` says what the newly stored
+        credentials share with this world's (same_id_new_key: accessory reset and re-paired / two
+        accessories configured with one identifier; new_id_same_key; same; new)."""
+        w = World(rng, self.crypto)
+        if relation in ("same_id_new_key", "same"):
+            w.a_id = self.a_id
+        if relation in ("new_id_same_key", "same"):
+            w.a_ltsk = self.a_ltsk
+            w.a_ltpk = self.crypto.ed_pub(w.a_ltsk)
+        if relation == "same":
+            w.client_ltsk, w.client_id = self.client_ltsk, self.client_id
+        w.prev_ltsk, w.prev_id = self.a_ltsk, self.a_id
+        w.prev_pd = None
+        return w
 
     @classmethod
     def from_json(cls, d, crypto):
@@ -296,6 +321,8 @@ def build_reply(w, v, client_pub):
 
     `v` (variant descriptor, all keys optional, absent = the honest accessory A):
       replay      the whole reply was produced in another session (other client/accessory ephemerals)
+      replay_prev the very bytes sent in the previous session run in this process (session pairs)
+      signer / ident = "prev": long-term key / identifier of the accessory of the previous session
       ident       "A" | "B"            identifier sent;  ident_mut: byte mutation of it
       sig_ident   "sent" | "A"         identifier inside the signed message
       signer      "A" | "B" | "client" whose long-term key signs
@@ -307,6 +334,8 @@ def build_reply(w, v, client_pub):
       outer       layout of the pairing data
     """
     cr = w.crypto
+    if v.get("replay_prev") and getattr(w, "prev_pd", None) is not None:
+        return "bytes", w.prev_pd  # the bytes the accessory sent in the previous session of this process
     acc_priv, cl_priv = w.acc_x, w.client_x
     cl_pub = client_pub
     if v.get("replay"):
@@ -316,8 +345,10 @@ def build_reply(w, v, client_pub):
     other_pub = cr.x_pub(w.acc_x2 if not v.get("replay") else w.acc_x)
     shared = cr.shared_for_client(acc_priv, acc_pub, cl_priv, cl_pub)
 
-    ident = mutate({"A": w.a_id, "B": w.b_id}[v.get("ident", "A")], v.get("ident_mut"))
-    signer = {"A": w.a_ltsk, "B": w.b_ltsk, "client": w.client_ltsk}[v.get("signer", "A")]
+    ident = mutate({"A": w.a_id, "B": w.b_id, "prev": getattr(w, "prev_id", w.a_id)}[v.get("ident", "A")],
+                   v.get("ident_mut"))
+    signer = {"A": w.a_ltsk, "B": w.b_ltsk, "client": w.client_ltsk,
+              "prev": getattr(w, "prev_ltsk", w.a_ltsk)}[v.get("signer", "A")]
     s_ident = ident if v.get("sig_ident", "sent") == "sent" else w.a_id
     s_pub = acc_pub if v.get("sig_pub", "session") == "session" else other_pub
     kind = v.get("sigmsg", "std")
@@ -698,10 +729,12 @@ class Obs:
         self.acc_decrypt = None    # real mode: accessory could decrypt the client's post-verify traffic
         self.client_pub = None
         self.reference = None
+        self.other_traffic = []
 
     def summary(self):
         return {"exc": self.exc, "chain": self.exc_chain, "enable_calls": len(self.enabled),
-                "keys_after": self.keys_after, "accessory_could_decrypt": self.acc_decrypt}
+                "keys_after": self.keys_after, "accessory_could_decrypt": self.acc_decrypt,
+                "client_traffic_besides_pair_verify": self.other_traffic}
 
 
 def _exc_chain(ex):
@@ -732,6 +765,60 @@ def _read_varint(buf):
     return None, buf
 
 
+TAG_METHOD, TAG_SALT, TAG_PROOF, TAG_FLAGS = 0, 2, 4, 0x13
+PEER_PIN = 3939  # the fixed PIN of transient pairing; the only PIN a client could try unattended
+
+
+class SetupPeer:
+    """The rest of a full peer: HAP pair-setup M1-M6 (regular and transient) with real SRP.
+
+    The honest client never starts pair-setup while connecting, so on the unchanged code this
+    is never reached.  It exists so that ANY fallback a connect path might try after a rejected
+    pair-verify (transient pairing, re-pairing, ...) finds a cooperative peer: whatever the
+    client does next on the same connection, the oracle still demands that connecting fails
+    and no keys are installed.  The identity offered in M6 is the one the forged reply claims."""
+
+    def __init__(self, case):
+        self.case = case
+        self.session = None
+        self.salt = None
+        self.requests = 0
+
+    def handle(self, t):
+        import hashlib
+
+        from srptools import SRPContext, SRPServerSession, constants
+
+        real = RealCrypto()
+        self.requests += 1
+        seq = t.get(TAG_SEQ, b"\x00")
+        if seq == b"\x01":
+            ctx = SRPContext("Pair-Setup", str(PEER_PIN), prime=constants.PRIME_3072,
+                             generator=constants.PRIME_3072_GEN, hash_func=hashlib.sha512, bits_salt=128)
+            username, verifier, salt = ctx.get_user_data_triplet()
+            sctx = SRPContext(username, prime=constants.PRIME_3072, generator=constants.PRIME_3072_GEN,
+                              hash_func=hashlib.sha512, bits_salt=128)
+            self.session = SRPServerSession(sctx, verifier, hx(self.case.w.acc_x2))
+            self.salt = salt
+            return tlv_bytes([(TAG_SEQ, b"\x02"), (TAG_SALT, binascii.unhexlify(salt)),
+                              (TAG_PUB, binascii.unhexlify(self.session.public))])
+        if seq == b"\x03" and self.session is not None:
+            self.session.process(hx(t.get(TAG_PUB, b"\x00")), self.salt)
+            if not self.session.verify_proof(hx(t.get(TAG_PROOF, b"\x00")).encode()):
+                return tlv_bytes([(TAG_SEQ, b"\x04"), (TAG_ERR, b"\x02")])
+            return tlv_bytes([(TAG_SEQ, b"\x04"), (TAG_PROOF, binascii.unhexlify(self.session.key_proof_hash))])
+        if seq == b"\x05" and self.session is not None:
+            key = binascii.unhexlify(self.session.key)
+            session_key = real.hkdf(b"Pair-Setup-Encrypt-Salt", b"Pair-Setup-Encrypt-Info", key)
+            acc_x = real.hkdf(b"Pair-Setup-Accessory-Sign-Salt", b"Pair-Setup-Accessory-Sign-Info", key)
+            ltsk, ident = self.case.claimed_identity()
+            ltpk = real.ed_pub(ltsk)
+            sig = real.ed_sign(ltsk, acc_x + ident + ltpk)
+            inner = tlv_bytes([(TAG_ID, ident), (TAG_PUB, ltpk), (TAG_SIG, sig)])
+            return tlv_bytes([(TAG_SEQ, b"\x06"), (TAG_ENC, real.seal(session_key, b"PS-Msg06", inner))])
+        return tlv_bytes([(TAG_SEQ, bytes([(seq[0] + 1) & 255]) if seq else b"\x00"), (TAG_ERR, b"\x01")])
+
+
 class Case:
     """Everything one attempt needs: world, variant, mode, m4 behaviour."""
 
@@ -741,6 +828,19 @@ class Case:
         self.log = Log()
         self.obs = Obs()
         self.sent_pd = None
+        self.setup = SetupPeer(self)
+        self.other_traffic = []    # what the client sent besides pair-verify M1/M3
+
+    def claimed_identity(self):
+        """(long-term secret, identifier) of whoever the reply of this variant claims to be"""
+        w, v = self.w, self.v
+        ltsk = {"A": w.a_ltsk, "B": w.b_ltsk, "client": w.client_ltsk, "prev": getattr(w, "prev_ltsk", w.a_ltsk)}[v.get("signer", "A")]
+        ident = {"A": w.a_id, "B": w.b_id, "prev": getattr(w, "prev_id", w.a_id)}[v.get("ident", "A")]
+        return ltsk, ident
+
+    def other(self, what):
+        if len(self.other_traffic) < 20:
+            self.other_traffic.append(what)
 
     def m2(self, client_pub):
         self.obs.client_pub = bytes(client_pub)
@@ -813,6 +913,14 @@ async def attempt_mrp(case, loop):
             t = tlv_parse(msg.inner().pairingData) or {}
             seq = t.get(TAG_SEQ, b"\x00")
             if seq == b"\x01":
+                state["setup"] = TAG_METHOD in t and TAG_PUB not in t
+            if state.get("setup"):
+                case.other("pair-setup M%d" % (seq[0] if seq else 0))
+                resp = messages.create(protobuf.CRYPTO_PAIRING_MESSAGE)
+                resp.inner().status = 0
+                resp.inner().pairingData = case.setup.handle(t)
+                deliver(resp)
+            elif seq == b"\x01":
                 kind, pd = case.m2(t.get(TAG_PUB, b""))
                 resp = messages.create(protobuf.CRYPTO_PAIRING_MESSAGE)
                 resp.inner().status = 0
@@ -831,6 +939,8 @@ async def attempt_mrp(case, loop):
                     if real and case.m4 in M4_ACK:
                         state["enc"] = case.accessory_keys()
         elif msg.identifier:
+            if not case.obs.enabled:
+                case.other("message type %d" % msg.type)
             deliver(messages.create(msg.type, identifier=msg.identifier))
 
     def on_write(data):
@@ -888,7 +998,14 @@ async def attempt_companion(case, loop):
         obj, _ = opack.unpack(payload)
         t = tlv_parse(obj.get("_pd", b"")) or {}
         seq = t.get(TAG_SEQ, b"\x00")
-        if ftype == FrameType.PV_Start.value and seq == b"\x01":
+        if ftype in (FrameType.PS_Start.value, FrameType.PS_Next.value):
+            case.other("pair-setup M%d" % (seq[0] if seq else 0))
+            deliver(FrameType.PS_Next, {"_pd": case.setup.handle(t)})
+        elif ftype not in (FrameType.PV_Start.value, FrameType.PV_Next.value):
+            case.other("frame type %d" % ftype)
+            if isinstance(obj, dict) and "_x" in obj:
+                deliver(FrameType(ftype), {"_t": 3, "_x": obj["_x"], "_c": {}})
+        elif ftype == FrameType.PV_Start.value and seq == b"\x01":
             kind, pd = case.m2(t.get(TAG_PUB, b""))
             if kind == "bytes":
                 deliver(FrameType.PV_Next, {"_pd": pd})
@@ -960,10 +1077,16 @@ async def attempt_airplay(case, loop):
         head = f"HTTP/1.1 {code} {'OK' if code == 200 else 'Error'}\r\nContent-Length: {len(body)}\r\nContent-Type: {ctype}\r\n\r\n"
         loop.call_soon(conn.data_received, head.encode() + body)
 
-    def on_request(body):
+    def on_request(path, body):
         t = tlv_parse(body) or {}
         seq = t.get(TAG_SEQ, b"\x00")
-        if seq == b"\x01":
+        if path == "/pair-setup":
+            case.other("POST /pair-setup M%d" % (seq[0] if seq else 0))
+            respond(200, case.setup.handle(t))
+        elif path != "/pair-verify" or seq not in (b"\x01", b"\x03") or (seq == b"\x01" and TAG_PUB not in t):
+            case.other("%s (%d bytes)" % (path, len(body)))   # /pair-pin-start, legacy endpoints, anything else
+            respond(200, b"")
+        elif seq == b"\x01":
             kind, pd = case.m2(t.get(TAG_PUB, b""))
             if kind == "bytes":
                 respond(200, pd)
@@ -998,7 +1121,8 @@ async def attempt_airplay(case, loop):
                 return
             state["buf"] = rest[n:]
             try:
-                on_request(rest[:n])
+                first = head.split(b"\r\n")[0].decode("utf-8", "replace").split(" ")
+                on_request(first[1] if len(first) > 1 else "?", rest[:n])
             except Exception as ex:
                 case.log.add("accessory-error:" + type(ex).__name__)
 
@@ -1120,6 +1244,7 @@ class Bench:
                     loop.run_until_complete(asyncio.gather(*pending, return_exceptions=True))
                 except Exception:
                     pass
+        case.obs.other_traffic = list(case.other_traffic)
         return case
 
 
@@ -1174,6 +1299,11 @@ STRUCTURAL = [
     {"pub_mut": {"append": "00"}},
     {"ident_mut": {"append": "00"}},
     {"ident_mut": {"append": "00"}, "sig_ident": "A"},
+    # identifiers equal to the stored one only after some normalisation (re-signed and stale)
+    {"ident_mut": {"case": "lower"}}, {"ident_mut": {"case": "lower"}, "sig_ident": "A"},
+    {"ident_mut": {"case": "swap"}}, {"ident_mut": {"case": "swap"}, "sig_ident": "A"},
+    {"ident_mut": {"append": "20"}}, {"ident_mut": {"append": "0a"}}, {"ident_mut": {"prepend": "20"}},
+    {"ident_mut": {"append": "20"}, "sig_ident": "A"},
     {"sig_mut": {"append": "00"}},
     {"enc_mut": {"append": "00"}},
     {"ident_mut": {"trunc": 0}},
@@ -1245,6 +1375,64 @@ def sym_variants(ctx, rng):
     return out
 
 
+PAIR_RELATIONS = ["same_id_new_key", "new_id_same_key", "same", "new"]
+PAIR_FIRST = [{}, {"signer": "B"}]   # the earlier session is accepted / rejected
+PAIR_SECOND = [{}, {"signer": "prev"}, {"signer": "prev", "ident": "prev"}, {"ident": "prev"}, {"replay_prev": True}]
+
+
+def pair_entries(rng, crypto):
+    """Two sessions in ONE process: the later one stores credentials related to the earlier one's
+    (same identifier with a new key, same key with a new identifier, identical, unrelated) and is
+    answered with the honest reply, a reply signed by the EARLIER session's key, the earlier
+    accessory's whole identity, its identifier only, or the earlier session's bytes replayed.
+    Every session is judged on its own by the reference verifier: nothing learnt in an earlier
+    session may make a later forged reply acceptable."""
+    out = []
+    n = 0
+    for t in TRANSPORTS:
+        for rel in PAIR_RELATIONS:
+            for v1 in PAIR_FIRST:
+                for v2 in PAIR_SECOND:
+                    n += 1
+                    w1 = World(rng.fork("pair", n, 1), crypto)
+                    w2 = w1.successor(rng.fork("pair", n, 2), rel)
+                    hist = {"variant": v1, "world": w1, "relation": rel}
+                    out.append((t, v1, w1, None))
+                    out.append((t, v2, w2, hist))
+    return out
+
+
+class Sessions:
+    """Runs todo entries (transport, variant, world, history) on one Bench = one process state."""
+
+    def __init__(self, bench):
+        self.bench = bench
+        self.done = {}
+
+    def attempt(self, t, v, world, hist):
+        if hist is not None:
+            prev = self.done.get(id(hist["world"]))
+            if prev is None:  # replay of a recorded failure: run the earlier session first
+                prev = self.bench.attempt(hist["world"], hist["variant"], t)
+                self.done[id(hist["world"])] = prev
+            if prev.sent_pd and prev.sent_pd[0] == "bytes":
+                world.prev_pd = prev.sent_pd[1]
+        case = self.bench.attempt(world, v, t)
+        self.done[id(world)] = case
+        return case
+
+
+def describe(mode, t, v, world, hist):
+    desc = {"mode": mode, "transport": t, "variant": v, "world": world.to_json()}
+    if hist is not None:
+        desc["history"] = [{"variant": hist["variant"], "world": hist["world"].to_json(), "relation": hist["relation"]}]
+    return desc
+
+
+def hist_tag(hist):
+    return "" if hist is None else ":second-session(%s,first=%s)" % (hist["relation"], canon_variant(hist["variant"]))
+
+
 def canon_variant(v):
     return json.dumps(v, sort_keys=True)
 
@@ -1270,10 +1458,10 @@ def impl_line(case):
     return f"{res} keys={keys} trace={';'.join(case.log.events) or '-'}"
 
 
-def check_consistency(ctx, case, transport, mode, v):
+def check_consistency(ctx, case, transport, mode, v, hist=None):
     """Part of the direct oracle that needs no reference: keys <=> success, never both."""
     obs = case.obs
-    desc = {"mode": mode, "transport": transport, "variant": v, "world": case.w.to_json()}
+    desc = describe(mode, transport, v, case.w, hist)
     if obs.exc is not None and (obs.enabled or obs.keys_after):
         ctx.fail(f"{transport}:keys-installed-although-connect-failed", desc, obs.summary(),
                  "a failed connect leaves the connection without encryption keys",
@@ -1297,23 +1485,28 @@ def run_symbolic(ctx, only=None):
         todo = []
         for t in TRANSPORTS:
             for v in variants + M4_VARIANTS[t] + [dict(a, **m) for a in ACCEPTABLE[1:3] for m in M4_VARIANTS[t]]:
-                todo.append((t, v, w))
+                todo.append((t, v, w, None))
+        todo += pair_entries(rng.fork("pairs"), sym)
     cases = []
     with Bench("sym") as bench:
-        for t, v, world in todo:
-            cases.append((t, v, bench.attempt(world, v, t)))
-    answers = ctx.lean([lean_line(c.w, t, c) for t, v, c in cases])
-    for (t, v, case), ans in zip(cases, answers):
+        sessions = Sessions(bench)
+        for t, v, world, hist in todo:
+            cases.append((t, v, sessions.attempt(t, v, world, hist), hist))
+    answers = ctx.lean([lean_line(c.w, t, c) for t, v, c, h in cases])
+    for (t, v, case, hist), ans in zip(cases, answers):
         impl = impl_line(case)
         reached = any(e.startswith("pubload") for e in case.log.events)
-        ctx.case(["sym", t, canon_variant(v)], reached, sample={"mode": "sym", "transport": t, "variant": v, "impl": impl[:160]})
+        ctx.case(["sym", t, canon_variant(v), hist_tag(hist)], reached,
+                 sample={"mode": "sym", "transport": t, "variant": v, "impl": impl[:160]})
         ctx.note(f"sym:{t}:" + ("accept" if case.obs.exc is None else case.obs.exc))
         ctx.note("sym-checks-reached:%d" % len(case.log.events))
+        if hist is not None:
+            ctx.note("sym-second-session:" + hist["relation"])
         if impl != ans:
-            ctx.disagree({"mode": "sym", "transport": t, "variant": v, "world": case.w.to_json()}, impl, ans,
+            ctx.disagree(describe("sym", t, v, case.w, hist), impl, ans,
                          where="pair-verify decision, exception class, installed keys and sequence of checks")
         ctx.validated()
-        check_consistency(ctx, case, t, "sym", v)
+        check_consistency(ctx, case, t, "sym", v, hist)
 
 
 def run_real(ctx, only=None):
@@ -1327,23 +1520,30 @@ def run_real(ctx, only=None):
         todo = []
         for t in TRANSPORTS:
             for v in ACCEPTABLE + forged + M4_VARIANTS[t]:
-                todo.append((t, v, w))
+                todo.append((t, v, w, None))
+        todo += pair_entries(rng.fork("pairs"), real)
     with Bench("real") as bench:
-        for t, v, world in todo:
-            case = bench.attempt(world, v, t)
+        sessions = Sessions(bench)
+        for t, v, world, hist in todo:
+            case = sessions.attempt(t, v, world, hist)
             obs = case.obs
             kind, pd = case.sent_pd if case.sent_pd else ("absent", b"")
             ref = reference_accepts(world, kind, pd)
             obs.reference = ref
-            desc = {"mode": "real", "transport": t, "variant": v, "world": world.to_json()}
+            desc = describe("real", t, v, world, hist)
             what = "+".join(sorted(k + ("." + next(iter(x)) if isinstance(x, dict) else "=" + str(x)) for k, x in v.items())) or "genuine"
+            if hist is not None:
+                what += ":second-session(%s)" % hist["relation"]
+                ctx.note("real-second-session:%s:%s" % (hist["relation"], "accept" if obs.exc is None else "reject"))
+            if obs.other_traffic:
+                ctx.note("client-traffic-besides-pair-verify")
             ctx.note(f"real:{t}:" + ("accept" if obs.exc is None else obs.exc))
             ctx.note("real-variant:" + what)
             if t == "airplay" and obs.exc is not None:
                 ctx.note("airplay-exc:" + "<-".join(obs.exc_chain))
-            ctx.case(["real", t, canon_variant(v)], not ref,
+            ctx.case(["real", t, canon_variant(v), hist_tag(hist)], not ref,
                      sample={"mode": "real", "transport": t, "variant": v, "observed": obs.summary()} if not ref else None)
-            check_consistency(ctx, case, t, "real", v)
+            check_consistency(ctx, case, t, "real", v, hist)
             m4_fails = case.m4 != "ok"
             if m4_fails:
                 ctx.note(f"real-m4:{t}:{case.m4}:" + ("accept" if obs.exc is None else obs.exc))
@@ -1389,7 +1589,11 @@ def replay(ctx, failure):
     c2 = type(ctx)(ctx.prop, ctx.tier, ctx.seed, ctx.driver.driver_rel)
     crypto = RealCrypto() if mode == "real" else SymCrypto()
     w = World.from_json(case["world"], crypto)
-    todo = [(case["transport"], case["variant"], w)]
+    hist = None
+    if case.get("history"):
+        h = case["history"][0]
+        hist = {"variant": h["variant"], "world": World.from_json(h["world"], crypto), "relation": h.get("relation", "?")}
+    todo = [(case["transport"], case["variant"], w, hist)]
     if mode == "real":
         run_real(c2, only=todo)
     else:
